@@ -42,9 +42,9 @@ typedef unsigned short u16;
 #ifdef __cplusplus
 extern "C" {
 #endif
-HID void vq_kv(const char *tag, u64 v);
-HID void vq_ks(const char *tag, const char *s);
-HID int vq_streq(const char *a, const char *b);
+API void vq_kv(const char *tag, u64 v);
+API void vq_ks(const char *tag, const char *s);
+API int vq_streq(const char *a, const char *b);
 #ifdef __cplusplus
 }
 #endif
@@ -65,19 +65,19 @@ static NOINL void vq_write(const char *s, u64 n) {
 static NOINL void vq_fail(const char *s) {
   u64 n = 0; while (s[n]) n++;
   vq_write("RT-FAIL ", 8); vq_write(s, n); vq_write("\n", 1); vq_exit(98); }
-HID NOINL void vq_ks(const char *tag, const char *s) {
+API NOINL void vq_ks(const char *tag, const char *s) {
   char b[200]; u64 n = 0;
   while (*tag && n < 60) b[n++] = *tag++;
   b[n++] = '=';
   while (*s && n < 198) b[n++] = *s++;
   b[n++] = '\n'; vq_write(b, n);
 }
-HID NOINL void vq_kv(const char *tag, u64 v) {
+API NOINL void vq_kv(const char *tag, u64 v) {
   char h[17]; int i = 16; h[16] = 0;
   do { int d = v & 15; h[--i] = d < 10 ? '0' + d : 'a' + d - 10; v >>= 4; } while (v);
   vq_ks(tag, h + i);
 }
-HID NOINL int vq_streq(const char *a, const char *b) { while (*a && *a == *b) a++, b++; return *a == *b; }
+API NOINL int vq_streq(const char *a, const char *b) { while (*a && *a == *b) a++, b++; return *a == *b; }
 
 extern const u8 __ehdr_start[] HID;
 extern void (*const __init_array_start[])(void) HID; extern void (*const __init_array_end[])(void) HID;
@@ -189,8 +189,10 @@ int vq_h_init_seen(void) { return vq_h_ctor_ran; }
 
 
 class Prog:
-    def __init__(self, name, flavour, cflags, cxx=()):
+    def __init__(self, name, flavour, cflags, cxx=(), api_hidden=False):
         self.name, self.flavour, self.cflags, self.cxx = name, flavour, list(cflags), set(cxx)
+        # Visibility of the symbols every TU shares with TU m (output helpers, init/fini counters).
+        self.api = "#define API " + ('__attribute__((visibility("hidden")))' if api_hidden else "") + "\n"
         self.tu = {t: [] for t in TUS}
         self.main = []
         self.atexit = []
@@ -216,8 +218,8 @@ class Prog:
         if tu == "m":
             main = ("HID int vq_main(void) {\n  " + "\n  ".join(self.main) + "\n  return 42;\n}\n"
                     "HID void vq_at_exit(void) {\n  " + "\n  ".join(self.atexit) + "\n}\n")
-            return RT_H + RT_C + body + "\n" + main
-        return RT_H + body + "\n"
+            return self.api + RT_H + RT_C + body + "\n" + main
+        return self.api + RT_H + body + "\n"
 
 
 # ------------------------------------------------------------------------------------ feature blocks
@@ -312,6 +314,25 @@ int *vq_cmd_cntp_{t}(void) {{ return &vq_cmd_cnt; }}
         P.call(f'vq_kv("CMD.cnt_eq_{t}", vq_cmd_cntp_{tus[0]}() == vq_cmd_cntp_{t}());')
 
 
+COMDAT_STRONG_ASM = r"""
+__asm__(".pushsection .text.vq_thunk,\"axG\",@progbits,vq_thunk,comdat\n"
+        ".globl vq_thunk\n.type vq_thunk,@function\nvq_thunk:\n lea 0x77(%rdi),%eax\n ret\n"
+        ".size vq_thunk,.-vq_thunk\n.popsection\n");
+extern int vq_thunk(int);
+"""
+
+
+def blk_comdat_strong(P, tus):
+    """A COMDAT group whose signature symbol is STB_GLOBAL (like the compiler's pc thunks) in several
+    TUs: only group de-duplication keeps this from being a duplicate definition."""
+    P.features.append("comdat-global")
+    for t in tus:
+        P.add(t, COMDAT_STRONG_ASM, key="comdat-strong")
+        P.add(t, f"NOINL int vq_thunk_call_{t}(int x) {{ return vq_thunk(x); }}")
+        P.decl_m(f"extern int vq_thunk_call_{t}(int);")
+        P.call(f'vq_kv("CMDG.call_{t}", vq_thunk_call_{t}(1));')
+
+
 def blk_strings(P, tus, asm_tu):
     """Identical / tail-sharing literals in several TUs (compared by content, printed), wide
     literals, FP constants, a hand-written mergeable section addressed with symbol+offset."""
@@ -395,7 +416,7 @@ def blk_initfini(P, tus):
     their order is defined; plain ones only accumulate commutatively and check that every
     prioritised one ran before them."""
     P.features.append("initfini")
-    P.decl_m("HID int vq_init_seq, vq_init_sum, vq_init_bad, vq_fini_seq, vq_fini_sum, vq_fini_bad;")
+    P.decl_m("API int vq_init_seq, vq_init_sum, vq_init_bad, vq_fini_seq, vq_fini_sum, vq_fini_bad;")
     n = len(tus)
     full = 0
     for k in range(n):
@@ -405,7 +426,7 @@ def blk_initfini(P, tus):
         ffull = ffull * 16 + k + 1
     for k, t in enumerate(tus):
         P.add(t, f"""
-extern HID int vq_init_seq, vq_init_sum, vq_init_bad, vq_fini_seq, vq_fini_sum, vq_fini_bad;
+extern API int vq_init_seq, vq_init_sum, vq_init_bad, vq_fini_seq, vq_fini_sum, vq_fini_bad;
 __attribute__((constructor({101 + k}))) static void vq_ctor_p_{t}(void) {{ vq_init_seq = vq_init_seq * 16 + {k + 1}; }}
 __attribute__((constructor)) static void vq_ctor_{t}(void) {{ vq_init_sum += {1 << (4 * k)}; if (vq_init_seq != {full}) vq_init_bad++; }}
 __attribute__((destructor({101 + k}))) static void vq_dtor_p_{t}(void) {{ vq_fini_seq = vq_fini_seq * 16 + {k + 1}; if (vq_fini_sum != {int("1" * n, 16)}) vq_fini_bad++; }}
@@ -452,14 +473,16 @@ NOINL int vq_wk_calls_w(void) { return vq_wk_over() * 100 + vq_wk_only() * 10 + 
 
 
 def blk_common(P, x, y, z):
-    """Tentative definitions (-fcommon) of different sizes and alignments in several TUs."""
+    """Common symbols (SHN_COMMON, via the `common` attribute) of different sizes and alignments in several TUs."""
     P.features.append("common")
     P.add(x, """
-int vq_cm1; char vq_cm2[16];
+#define CMN __attribute__((common))
+int vq_cm1 CMN; char vq_cm2[16] CMN;
 NOINL void vq_cm_set_x(void) { vq_cm1 += 7; vq_cm2[3] = 'x'; }
 """)
     P.add(y, """
-int vq_cm1; char vq_cm2[200]; double vq_cm3[4] __attribute__((aligned(32)));
+#define CMN __attribute__((common))
+int vq_cm1 CMN; char vq_cm2[200] CMN; double vq_cm3[4] __attribute__((aligned(32), common));
 NOINL void vq_cm_set_y(void) { vq_cm1 += 0x70; vq_cm2[150] = 'y'; vq_cm3[3] = 2.0; }
 """)
     P.add(z, """
@@ -605,7 +628,7 @@ extern "C" void *vq_cxx_inl_addr_{t}(void) {{ return (void *)&vq_inl; }}
 # ------------------------------------------------------------------------------------ the programs
 FLAVOUR_FLAGS = {"nopic": ["-fno-pic", "-fno-pie"], "pie": ["-fPIE"],
                  "pic": ["-fPIC", "-ftls-model=initial-exec"]}
-BASE_FLAGS = ["-nostdlib", "-ffreestanding", "-fno-stack-protector", "-fcommon", "-fno-builtin",
+BASE_FLAGS = ["-nostdlib", "-ffreestanding", "-fno-stack-protector", "-fno-common", "-fno-builtin",
               "-fcf-protection=none", "-w"]
 CXX_FLAGS = ["-fno-exceptions", "-fno-rtti", "-fno-threadsafe-statics", "-fno-use-cxa-atexit",
              "-std=gnu++17"]
@@ -613,55 +636,78 @@ KINDS = ["static", "static-pie", "pie-dyn", "nonpie-dyn"]
 KINDS_OF_FLAVOUR = {"nopic": ["static", "nonpie-dyn"], "pie": KINDS, "pic": KINDS}
 
 
-def _all_blocks(P, r):
-    """All C blocks with the role rotation r (a permutation of 'mabc')."""
+ALL_BLOCKS = ["calls", "fptr", "comdat", "comdat-global", "strings", "tls", "initfini", "weakhid",
+              "common", "ifunc", "startstop", "bigalign", "helper"]
+
+
+def _blocks(P, r, omit=()):
+    """The C blocks, minus `omit`, with the role rotation r (a permutation of 'mabc')."""
     m, a, b, c = r
-    blk_calls(P, a, b, c)
-    blk_fptr(P, b, c)
-    blk_comdat(P, [a, c, m])
-    blk_strings(P, [a, b, c], m)
-    blk_tls(P, c, a, b)
-    blk_initfini(P, list(r))
-    blk_weakhid(P, b, a, m)
-    blk_common(P, c, b, a)
-    blk_ifunc(P, a, m)
-    blk_recs(P, list(r))
-    blk_bigalign(P, b, m)
-    blk_helper(P, c, a)
+    want = lambda n: n not in omit
+    if want("calls"):
+        blk_calls(P, a, b, c)
+    if want("fptr"):
+        blk_fptr(P, b, c)
+    if want("comdat"):
+        blk_comdat(P, [a, c, m])
+    if want("comdat-global"):
+        blk_comdat_strong(P, [b, c])
+    if want("strings"):
+        blk_strings(P, [a, b, c], m)
+    if want("tls"):
+        blk_tls(P, c, a, b)
+    if want("initfini"):
+        blk_initfini(P, list(r))
+    if want("weakhid"):
+        blk_weakhid(P, b, a, m)
+    if want("common"):
+        blk_common(P, c, b, a)
+    if want("ifunc"):
+        blk_ifunc(P, a, m)
+    if want("startstop"):
+        blk_recs(P, list(r))
+    if want("bigalign"):
+        blk_bigalign(P, b, m)
+    if want("helper"):
+        blk_helper(P, c, a)
 
 
 def programs():
-    """The 10 programs (deterministic)."""
+    """The 10 programs (deterministic).  Not every program has every block, so that a defect in one
+    feature does not hide the others everywhere."""
     out = []
 
-    def full(name, flavour, cflags, rot):
-        P = Prog(name, flavour, cflags)
-        _all_blocks(P, rot)
+    def full(name, flavour, cflags, rot, omit=(), api_hidden=False):
+        P = Prog(name, flavour, cflags, api_hidden=api_hidden)
+        _blocks(P, rot, omit)
         out.append(P)
         return P
 
-    full("p0_nopic_O2", "nopic", ["-O2"], "mabc")
-    full("p1_pie_O2", "pie", ["-O2"], "mabc")
+    full("p0_nopic_O2", "nopic", ["-O2"], "mabc", omit=["comdat-global"], api_hidden=True)
+    full("p1_pie_O2", "pie", ["-O2"], "mabc", omit=["common", "comdat-global"])
     full("p2_pic_O1_noplt", "pic", ["-O1", "-fno-plt"], "mbca")
-    full("p3_pie_Os_sections", "pie", ["-Os", "-ffunction-sections", "-fdata-sections"], "mcab")
+    full("p3_pie_Os_sections", "pie", ["-Os", "-ffunction-sections", "-fdata-sections"], "mcab",
+         omit=["weakhid", "common", "comdat", "comdat-global"])
     # C++ program: b and c are C++ TUs, C blocks live in m and a.
     P = Prog("p4_pie_cxx", "pie", ["-O2"], cxx="bc")
     blk_cxx(P, ["b", "c"])
     blk_calls(P, "a", "m", "a")
     blk_fptr(P, "m", "a")
-    blk_comdat(P, ["a", "m"])
     blk_strings(P, ["a", "m"], "a")
     blk_tls(P, "a", "m", "a")
     blk_initfini(P, ["m", "a"])
-    blk_weakhid(P, "a", "m", "a")
     blk_recs(P, ["m", "a"])
     blk_helper(P, "a", "m")
     out.append(P)
-    full("p5_nopic_O1_sections", "nopic", ["-O1", "-ffunction-sections", "-fdata-sections"], "mcba")
-    full("p6_pic_O2", "pic", ["-O2", "-fno-semantic-interposition"], "macb")
-    full("p7_pie_O2_noplt", "pie", ["-O2", "-fno-plt", "-fdata-sections"], "mbac")
-    full("p8_nopic_Os", "nopic", ["-Os", "-fno-plt"], "mcab")
-    full("p9_pic_Os_sections", "pic", ["-Os", "-ffunction-sections", "-fdata-sections"], "mabc")
+    full("p5_nopic_O1_sections", "nopic", ["-O1", "-ffunction-sections", "-fdata-sections"], "mcba",
+         omit=["comdat", "comdat-global"], api_hidden=True)
+    full("p6_pic_O2", "pic", ["-O2", "-fno-semantic-interposition"], "macb",
+         omit=["common", "ifunc", "comdat"])
+    full("p7_pie_O2_noplt", "pie", ["-O2", "-fno-plt", "-fdata-sections"], "mbac",
+         omit=["common", "comdat", "comdat-global", "weakhid"], api_hidden=True)
+    full("p8_nopic_Os", "nopic", ["-Os", "-fno-plt"], "mcab", omit=["comdat-global"])
+    full("p9_pic_Os_sections", "pic", ["-Os", "-ffunction-sections", "-fdata-sections"], "mabc",
+         omit=["common"], api_hidden=True)
     assert len(out) == 10 and len({p.name for p in out}) == 10
     return out
 
